@@ -185,7 +185,6 @@ package dig
 // Row assembly (C10, C12, C13). igOK: what dig.New establishes and processLog
 // relies on. cntIdx / cntData count the indexed resp. ABI-data input columns
 // among the first k column definitions.
-//@ spec rec cntIdx(cs []coldef, k int) int = k <= 0 ? 0 : cntIdx(cs, k-1) + (cs[k-1].Input.Indexed ? 1 : 0)
 //@ spec rec cntData(cs []coldef, k int) int = k <= 0 ? 0 : cntData(cs, k-1) + ((!cs[k-1].Input.Indexed && len(cs[k-1].BlockData.Name) == 0) ? 1 : 0)
 //@ spec bytesField(n string) bool = n == "block_hash" || n == "tx_hash" || n == "tx_signer" || n == "tx_to" || n == "tx_input" || n == "tx_contract_address" || n == "log_addr" || n == "trace_action_from" || n == "trace_action_to"
 //@ spec refOK(cd coldef) bool = (len(cd.Input.Filter.Arg) == 0 && len(cd.Input.Filter.Ref.Integration) != 0 ==> bytesTyped(cd.Input.Type)) && (len(cd.BlockData.Filter.Arg) == 0 && len(cd.BlockData.Filter.Ref.Integration) != 0 ==> bytesField(cd.BlockData.Name))
@@ -194,23 +193,21 @@ package dig
 //@   requires lwc != nil && lwc.l != nil && lwc.b != nil && lwc.t != nil && ig.numIndexed >= 0 && ig.resultCache != nil
 //@   requires len((*ig.resultCache).singleton) == (*ig.resultCache).ncols && 0 <= (*ig.resultCache).ncols && (*ig.resultCache).ncols < 0x10000000000 && wfs((*ig.resultCache).t) && wfp((*ig.resultCache).t, (*ig.resultCache).ncols)
 //@   requires forall k int :: 0 <= k && k < len((*ig.resultCache).collection) ==> rowlen((*ig.resultCache).collection, k) == (*ig.resultCache).ncols
-//@   requires forall k int :: 0 <= k && k <= len(ig.coldefs) ==> 0 <= cntIdx(ig.coldefs, k) && cntIdx(ig.coldefs, k) <= ig.numIndexed && 0 <= cntData(ig.coldefs, k) && cntData(ig.coldefs, k) <= (*ig.resultCache).ncols
+//@   requires forall k int :: 0 <= k && k <= len(ig.coldefs) ==> 0 <= cntData(ig.coldefs, k) && cntData(ig.coldefs, k) <= (*ig.resultCache).ncols
 //@   requires forall k int :: 0 <= k && k < len(ig.coldefs) ==> refOK(ig.coldefs[k]) && !istracefield(ig.coldefs[k].BlockData.Name)
-//@   requires forall j int, k int :: 0 <= j && j < k && k < len(ig.coldefs) && len(ig.coldefs[j].BlockData.Name) > 0 ==> !ig.coldefs[k].Input.Indexed
+//@   requires forall k int :: 0 <= k && k < len(ig.coldefs) && ig.coldefs[k].Input.Indexed ==> 0 <= ig.coldefs[k].topic && ig.coldefs[k].topic <= ig.numIndexed
 //@   ensures [gate-count] len((*lwc.l).Topics) - 1 != ig.numIndexed ==> result1 == nil && result0 == rows
 //@   ensures [gate-hash] len((*lwc.l).Topics) - 1 == ig.numIndexed && !old(beq(ig.sighash, (*lwc.l).Topics[0])) ==> result1 == nil && result0 == rows
+//@   atcall dbtype assert [type] arg0 == def.Input.Type
+//@   atcall dbtype assert [indexed-topic] def.Input.Indexed ==> arg1 == (*lwc.l).Topics[def.topic]
 //@   loop#0 invariant 0 <= i
 //@   loop#0 invariant resInv(ig.resultCache) && (*ig.resultCache).ncols == old((*ig.resultCache).ncols)
-//@   loop#1 invariant ictr == 1 + cntIdx(ig.coldefs, rangeindex + 1) && actr == cntData(ig.coldefs, rangeindex + 1)
-//@   loop#1 invariant 0 <= cntIdx(ig.coldefs, rangeindex + 1) && cntIdx(ig.coldefs, rangeindex + 1) <= ig.numIndexed && 0 <= cntData(ig.coldefs, rangeindex + 1) && cntData(ig.coldefs, rangeindex + 1) <= (*ig.resultCache).ncols
-//@   loop#1 invariant rangeindex + 2 <= len(ig.coldefs) ==> cntIdx(ig.coldefs, rangeindex + 2) <= ig.numIndexed && cntData(ig.coldefs, rangeindex + 2) <= (*ig.resultCache).ncols
+//@   loop#1 invariant actr == cntData(ig.coldefs, rangeindex + 1)
+//@   loop#1 invariant 0 <= cntData(ig.coldefs, rangeindex + 1) && cntData(ig.coldefs, rangeindex + 1) <= (*ig.resultCache).ncols
+//@   loop#1 invariant rangeindex + 2 <= len(ig.coldefs) ==> cntData(ig.coldefs, rangeindex + 2) <= (*ig.resultCache).ncols
 //@   loop#1 invariant rangeindex + 2 <= len(ig.coldefs) ==> refOK(ig.coldefs[rangeindex + 1])
 //@   loop#1 invariant rowlen((*ig.resultCache).collection, i) == (*ig.resultCache).ncols
 //@   loop#1 invariant len(row) == len(ig.coldefs) && frs.kind == ig.filterAGG && (rangeindex == -1 ==> !frs.set)
 //@   loop#1 invariant resInv(ig.resultCache) && (*ig.resultCache).ncols == old((*ig.resultCache).ncols) && 0 <= i && i < (*ig.resultCache).n
-//@   loop#2 invariant 0 <= cntIdx(ig.coldefs, rangeindex + 1) && cntIdx(ig.coldefs, rangeindex + 1) <= ig.numIndexed
-//@   loop#2 invariant rangeindex + 2 <= len(ig.coldefs) ==> cntIdx(ig.coldefs, rangeindex + 2) <= ig.numIndexed
 //@   loop#2 invariant rangeindex + 2 <= len(ig.coldefs) ==> refOK(ig.coldefs[rangeindex + 1])
 //@   loop#2 invariant len(row) == len(ig.coldefs) && frs.kind == ig.filterAGG && (rangeindex == -1 ==> !frs.set)
-//@   loop#2 invariant forall j int :: 0 <= j && j <= rangeindex ==> ig.coldefs[j].Input.Indexed || len(ig.coldefs[j].BlockData.Name) > 0
-//@   loop#2 invariant (forall j int :: 0 <= j && j <= rangeindex ==> ig.coldefs[j].Input.Indexed) ==> cntIdx(ig.coldefs, rangeindex + 1) == rangeindex + 1
